@@ -518,6 +518,11 @@ def node_cases(seed, tier):
         for nm in (0, ALL1):
             cases.append(cfg(1, 30, t0=5000) + ' | ' + ' ; '.join(backlog(r, k, [claim(30, nm)])))
     cases.append(cfg(2, 30, t0=5000) + ' | ' + ' ; '.join(backlog(r, 20, [claim(31, 0)]) + backlog(r, 19, [claim(30, 0), claim(32, 0)])))
+    # the claim answer under driver back-pressure: refused when it is produced and again at the next flush(es), or behind an overflowing
+    # backlog - it waits in the send queue and goes out when the driver accepts (model / implementation agreement; seeds C03-22, C03-24)
+    for pat in ('00', '000', '0', '0' * 95):
+        sends = ['S 1 6 127250 15 255 0 0102030405060708'] * (90 if len(pat) > 10 else 0)      # (the sibling device keeps sending: its claim is not pending)
+        cases.append(cfg(2, 30, t0=5000).replace('q=40', 'q=20') + ' | ' + ' ; '.join(['A ' + pat] + sends[:len(sends) // 2] + [claim(30, 0), 'P'] + sends[len(sends) // 2:] + ['P', 'T 5', 'P', 'A', 'P', 'T 251', 'P']))
     # every reassembly slot holds an unfinished fast packet stamped shortly before the 32-bit millisecond clock rolls over; afterwards a
     # lower NAME claims our address: the claim needs a slot (the oldest one, older than 100 ms) like any other frame (seed C03-21)
     for t0, gap in ((4294967295 - 50, 150), (4294967295 - 120, 130), (5000, 150), (2147483647 - 50, 150)):
@@ -563,6 +568,8 @@ def oracle_node(case, res):
     if src0 > MAXA or any(a > 253 for a in addr):
         return None                       # preferred address outside 0..251: not a claimant the property speaks of
     names = [NAME0 + i for i in range(ndev)]
+    if any(o and o[0] == 'A' for o in ops):
+        return None                       # driver back-pressure: judged by the correspondence with the model (the queue is C11's subject)
     pending = []
     lost = [set() for _ in range(ndev)]   # addresses lost to a lower NAME since the device last completed a claim
     changed = False
